@@ -562,6 +562,16 @@ mkfunc(struct decl *decl, char *name, struct type *t, struct scope *s)
 	return f;
 }
 
+static void
+dellabel(void *ptr)
+{
+	struct gotolabel *g = ptr;
+
+	if (!g->defined)
+		error(&tok.loc, "goto label used but not defined");
+	free(g);
+}
+
 void
 delfunc(struct func *f)
 {
@@ -575,7 +585,7 @@ delfunc(struct func *f)
 		free(b->insts.val);
 		free(b);
 	}
-	mapfree(&f->gotos, free);
+	mapfree(&f->gotos, dellabel);
 	free(f);
 }
 
@@ -661,6 +671,7 @@ funcgoto(struct func *f, char *name)
 	if (!g) {
 		g = xmalloc(sizeof(*g));
 		g->label = mkblock(name);
+		g->defined = false;
 		*entry = g;
 	}
 
